@@ -288,10 +288,10 @@ fn c04_o1r_put_mutable_empty() {
 }
 
 //@ ob: C04.O5
-//@ rss: 5.8
-//@ time: 761
 //@ tier: quick
 //@ cap: 800
+//@ rss: 4.0
+//@ time: 150
 //@ standins: tracing lru vcoll
 //@ also: C03 C11
 //@ desc: one get (seq filter absent or symbolic) against a mutable store holding nothing or one item: returns exactly the stored (v, k, seq, sig) / only the seq (NoMoreRecentValue) iff the filter is at or above the stored seq / NoValues iff nothing is stored; every reply carries the token Tokens::generate_token issued for the requester and asks the routing table for closest(target); the store is unchanged
